@@ -8,6 +8,12 @@ NOT_APPLICABLE = {f"C{i:02d}": _PENDING for i in range(1, 21)}
 TRUST = "Trusted: rustc/std float semantics, the harness' own oracle code, the python driver. Held = held on the executions observed (exhaustive only for the sub-domains named in evidence)."
 
 CLAIMS = {
+    "C03": {
+        "text": "Contract monitor over real calls: for each of 114 listed type instantiations the full cross product of {far below, 1 ulp below, on, inside, on, 1 ulp above, far above} per component (so every mixed below/above sign pattern, which the diagonal unit tests never reach) plus 20000 (thorough 2e6) seeded points in [lo-3W, hi+4W] is clamped; each event checks that the result reports itself within bounds, that in-bounds colours are returned bit-identically, idempotence, equality of the by-value and assigning forms, that every clamped component equals the documented accessor bound, that the hue is untouched and that is_within_bounds agrees with the documented bounds. For each of the 1836 listed conversion pairs from_color is compared bit for bit with from_color_unclamped followed by clamp, and try_from_color must be Ok exactly when the unclamped result is within bounds and carry that value in Ok or in the error.",
+        "design_ref": "DESIGN.md section 3, C03",
+        "note": TRUST + " Okhsv's documented 1e-6 slack between accessor and clamp bound is allowed and reported.",
+        "technique": "runtime monitoring: contract relations between real calls (clamp / is_within_bounds / from_color / try_from_color) on a sign-pattern lattice, plus a documented-bounds table",
+    },
     "C01": {
         "text": "Relational monitor over real calls: (1) A -> B -> A on every listed ordered pair with B not luma (1500 pairs x f32/f64, 300 seeded in-gamut colours per pair quick, 30000 thorough), (2) direct A -> B against A -> M -> B for every listed pair and every listed intermediate M (about 24000 triples, which enumerates the TypeId shortcuts, shared-primaries paths, direct sRGB<->Oklab matrices and derive-chosen intermediates), (3) Alpha<A> -> Alpha<B>, A -> Alpha<B> and Alpha<A> -> B compared bit for bit with the bare conversion and the input alpha on every pair. (1) and (2) are judged in cartesian comparison space with a bound calibrated by the reference model's local sensitivity.",
         "design_ref": "DESIGN.md section 3, C01",
